@@ -1511,6 +1511,10 @@ func (p *Parser) parseArguments() (args Args) {
 	// assume we're on (
 	p.next()
 	args.List = make([]Arg, 0, 4)
+	// the in operator is always allowed between the parentheses (also for new A(...) and a?.(...) in a for-initialiser)
+	prevIn := p.in
+	p.in = true
+	defer func() { p.in = prevIn }()
 	for p.tt != CloseParenToken && p.tt != ErrorToken {
 		rest := p.tt == EllipsisToken
 		if rest {
@@ -2035,7 +2039,11 @@ func (p *Parser) parseExpressionSuffix(left IExpr, prec, precLeft OpPrec) IExpr 
 				left = &CallExpr{left, p.parseArguments(), OpOpt, true}
 			} else if p.tt == OpenBracketToken {
 				p.next()
+				// the in operator is allowed between the brackets, as for a[b]
+				prevIn := p.in
+				p.in = true
 				left = &IndexExpr{left, p.parseExpression(OpExpr), OpOpt, true}
+				p.in = prevIn
 				if !p.consume("optional chaining expression", CloseBracketToken) {
 					return nil
 				}
